@@ -102,6 +102,9 @@ func (p *Publish) Unpack(r io.Reader) error {
 		if err != nil {
 			return err
 		}
+		if p.PacketID == 0 { // [MQTT-2.2.1-3]
+			return codes.ErrProtocol
+		}
 	}
 	if p.Version == Version5 {
 		p.Properties = &Properties{}
